@@ -138,3 +138,37 @@ func thmDeleteKeepsDiverging(t *Trie, b, x []byte, d int) {
 	//@ assert h0 ==> h1
 	_, _, _ = h0, r, h1
 }
+
+//@ theorem C15.addAddsOnlyPrefixes
+//@   props C15
+//@   requires t != nil && t <= alloc
+//@   requires forall y ref :: y != nil ==> !isnil(y.m)
+//@   requires forall y ref, k int :: has(y.m, k) ==> y.m[k] != nil
+//@   requires closed(heaphas(t.m), heapval(t.m), alloc) && tree(heaphas(t.m), heapval(t.m), alloc, t)
+//@   let H0 := old(heaphas(t.m))
+//@   let V0 := old(heapval(t.m))
+//@   let A0 := old(alloc)
+//@   let X := rawarr(x)
+//@   let OX := offset(x)
+//@   let B := rawarr(b)
+//@   let OB := offset(b)
+// Add(b) makes nothing held except b's prefixes (tree-shaped tries): a sequence
+// x that is held after Add(b) was held before, or it is a prefix of b. Together
+// with C15.addThenHas / addThenHasPrefix: after Add(b), Has(x) holds exactly
+// when it held before or x is a prefix of b.
+func thmAddAddsOnlyPrefixes(t *Trie, b, x []byte) {
+	h0 := t.Has(x)
+	t.Add(b)
+	h1 := t.Has(x)
+	z := 0
+	_ = z
+	//@ assert mark(OX) && mark(OB) && mark(len(x)) && mark(len(b))
+	//@ assert h1 ==> chain(heaphas(t.m), heapval(t.m), t, X, OX, len(x))
+	//@ assert h1 ==> chain(H0, V0, t, X, OX, len(x)) || walk(heaphas(t.m), heapval(t.m), t, X, OX, len(x)) > A0
+	//@ assert h1 && !h0 ==> walk(heaphas(t.m), heapval(t.m), t, X, OX, len(x)) > A0 && walk(heaphas(t.m), heapval(t.m), t, X, OX, len(x)) <= alloc
+	//@ assert h1 && !h0 ==> walk(heaphas(t.m), heapval(t.m), t, X, OX, len(x)) == walk(heaphas(t.m), heapval(t.m), t, B, OB, len(b) - (alloc - walk(heaphas(t.m), heapval(t.m), t, X, OX, len(x))))
+	//@ assert h1 && !h0 ==> chain(heaphas(t.m), heapval(t.m), t, B, OB, len(b) - (alloc - walk(heaphas(t.m), heapval(t.m), t, X, OX, len(x))))
+	//@ assert h1 && !h0 ==> len(x) == len(b) - (alloc - walk(heaphas(t.m), heapval(t.m), t, X, OX, len(x)))
+	//@ assert h1 && !h0 ==> len(x) <= len(b) && forall j int :: 0 <= j && j < len(x) ==> x[j] == b[j]
+	_, _ = h0, h1
+}
